@@ -57,3 +57,37 @@ Example C16_example :
   pr_values (action_path fs_ex (B [47;120]) (B [47;104]) [B [46;116;120;116]] false (B [47;114]) (B [46;47]))
   = [B [46;47;97;46;116;120;116]; B [46;47;100;47]; B [46;47;108;47]].        (* ./a.txt  ./d/  ./l/ *)
 Proof. vm_compute. reflexivity. Qed.
+
+(* ---------- what the typed path DENOTES (Proofs/FilesDenote.v) ----------
+   [denotes fs p r]: the kernel's walk of p from the root, following symbolic links, ends at r.
+   carapace cleans the typed path lexically (filepath.Abs / Clean in Context.Abs, filepath.Dir) before
+   reading the directory.  For typed paths without a `..` segment that changes nothing: the directory
+   actionPath reads is the directory part of the typed path, taken from Context.Dir, through any links.
+   With `..` after a link it differs (C16_dotdot_refuted = the known finding C16-lexical-dotdot). *)
+From CV Require Import Proofs.FilesDenote.
+
+Theorem C16_skippable_segments : forall fs cur segs r,
+  denotes_from fs cur segs r <-> denotes_from fs cur (filter keep segs) r.
+Proof. exact denotes_filter. Qed.
+Print Assumptions C16_skippable_segments.
+
+Theorem C16_clean_denotes : forall fs p r, rooted p = true -> nodd p = true ->
+  (denotes fs (clean p) r <-> denotes fs p r).
+Proof. exact clean_denotes. Qed.
+Print Assumptions C16_clean_denotes.
+
+Theorem C16_listed_dir_relative : forall fs cwd home cdir value r,
+  rooted cdir = true -> rooted value = false -> tilde_start value = false -> nodd (cdir ++ sl ++ value) = true ->
+  (denotes fs (fdir (ctx_abs cwd home cdir value)) r <-> denotes fs (cdir ++ sl ++ dir_part value) r).
+Proof. exact listed_dir_denotes_relative. Qed.
+Print Assumptions C16_listed_dir_relative.
+
+Theorem C16_listed_dir_absolute : forall fs cwd home cdir value r, rooted value = true -> nodd value = true ->
+  (denotes fs (fdir (ctx_abs cwd home cdir value)) r <-> denotes fs (dir_part value) r).
+Proof. exact listed_dir_denotes_absolute. Qed.
+Print Assumptions C16_listed_dir_absolute.
+
+Theorem C16_dotdot_refuted :
+  realpath dd_fs dd_path = Some (B [47;97;47;99]) /\ clean dd_path = B [47;99] /\ realpath dd_fs (clean dd_path) = None.
+Proof. exact dotdot_refuted. Qed.
+Print Assumptions C16_dotdot_refuted.
